@@ -192,7 +192,7 @@ func runC15(c *eng.Ctx) {
 	}
 
 	// ---- R3, R5 on conversionEventHandler
-	r3 := c.Rule("C15.R3", "B:control-dependence", "conversionEventHandler: the next step's input (request.Objects = response.ConvertedObjects) is reachable only when response.FailedMessage is empty; a non-empty message is returned as the answer", 2)
+	r3 := c.Rule("C15.R3", "B:control-dependence", "conversionEventHandler: the next step's input (request.Objects = response.ConvertedObjects) is reachable only when response.FailedMessage is empty; a non-empty message is returned as the answer", 3)
 	r5 := c.Rule("C15.R5", "B:order", "conversionEventHandler: hooks run in an ascending range over the chain; Status==Fail returns before any other step; the Success answer requires the done flag", 3)
 	if f := p.Func(pkgOp + ".(*ShellOperator).conversionEventHandler"); f == nil {
 		r3.Unknown("anchor:conversionEventHandler", token.NoPos, "function not found")
@@ -249,6 +249,31 @@ func runC15(c *eng.Ctx) {
 		} else {
 			r3.Check(g.OnlyVia(feed, nil, msgEmpty), f.Key+" feed-only-without-failure", feed.Node.Pos(), "the next step is prepared only when FailedMessage is empty",
 				"the chain continues although the hook may have answered with a failedMessage: the next hook runs on its (empty) objects and the hook's own message is lost")
+		}
+		// ... and is always prepared then: from the "message is empty" edge no path reaches the next step, the done test
+		// or an exit without having fed the output forward (each hook receives the previous hook's output, whatever it is)
+		if feed != nil {
+			okAlways := true
+			found := false
+			for _, n := range g.Nodes {
+				for _, e := range n.Succ {
+					if !msgEmpty(e) {
+						continue
+					}
+					found = true
+					reach := g.Reach(eng.Query{From: []*eng.GNode{n}, AvoidEdge: func(x *eng.GEdge) bool { return x.From == n && x != e }, AvoidNode: func(m *eng.GNode) bool { return m == feed }})
+					for m := range reach {
+						if m == feed {
+							continue
+						}
+						if m.Exit || (m.Node == nil && (m.Block.Kind.String() == "RangeLoop" || m.Block.Kind.String() == "RangeDone")) {
+							okAlways = false
+						}
+					}
+				}
+			}
+			r3.Check(found && okAlways, f.Key+" output-always-fed-forward", feed.Node.Pos(), "whenever the hook did not report a failure its output becomes the next step's input",
+				"a step's output is not always handed to the next step: under some condition (e.g. an empty convertedObjects list) the next hook receives the previous input again and the chain can end in Success although a step converted nothing")
 		}
 		// a return under msgSet carries the message
 		carries := false
